@@ -25,9 +25,20 @@ def ready_edge(b, timer_field):
         if not br:
             continue
         c2, tr = strip_not(br[0], True)
-        if c2[0] == "call" and rx(r"Poll.*::is_ready$").search(c2[1] or "") and e_calls(c2, r"Future>::poll$|Future::poll$") and e_has_field(c2, DF + timer_field + "$"):
+        on_timer = bool(e_calls(c2, r"Future>::poll$|Future::poll$")) and e_has_field(c2, DF + timer_field + "$")
+        if c2[0] == "call" and rx(r"Poll.*::is_ready$").search(c2[1] or "") and on_timer:
             for lab, tb in br[1]:
                 if isinstance(lab, bool) and (lab if tr else not lab) is True:
+                    out.append(tb)
+        elif c2[0] == "call" and rx(r"Poll.*::is_pending$").search(c2[1] or "") and on_timer:
+            # the same test spelled `!timer.poll(cx).is_pending()`
+            for lab, tb in br[1]:
+                if isinstance(lab, bool) and (lab if tr else not lab) is False:
+                    out.append(tb)
+        elif c2[0] == "discr" and (c2[2] or "").endswith("task::poll::Poll") and on_timer:
+            # ... or as `match timer.poll(cx) { Poll::Ready(()) => .. }` / `if let Poll::Ready(_) = ..`
+            for lab, tb in br[1]:
+                if labels_in(lab, ("Ready",)):
                     out.append(tb)
     return out
 
